@@ -139,10 +139,17 @@ T8 = [
  ("R8_C05_1", "C", 1, [("demo.rs", "server/tests/demo.rs")], "cargo test -p server --offline --test demo", ["C05", "C16"]),
 ]
 
+# ninth round (SEEDED_SRC=/tmp/s9): one property text per agent, 4-minute limit
+T9 = [
+ ("R9_C10_1", "A", 1, [("demo.rs", "solution/tests/demo.rs")], "cargo test -p solution --offline --test demo", ["C10"]),
+ ("R9_C12_1", "B", 1, [("demo.rs", "solution/tests/demo.rs")], "cargo test -p solution --offline --test demo", ["C12"]),
+ ("R9_C17_1", "C", 1, [("demo.rs", "model/tests/demo.rs")], "cargo test -p model --offline --test demo", ["C17"]),
+]
+
 def confirm2(only):
     path = os.environ.get("SEEDED_CONFIRM2_PATH", "/verif/notes/seeded2_confirm.json")
     res = json.load(open(path)) if os.path.exists(path) else {}
-    for (key, wtid, k, demos, cmd, _checks) in T2 + T3 + T4 + T5 + T6 + T7 + T8:
+    for (key, wtid, k, demos, cmd, _checks) in T2 + T3 + T4 + T5 + T6 + T7 + T8 + T9:
         if only and key not in only:
             continue
         wt = "%s/%s" % (SRC, wtid); out = "%s/%s-out" % (SRC, wtid)
@@ -174,7 +181,7 @@ def detect2(only):
     res = json.load(open(path)) if os.path.exists(path) else {}
     if sh("git -C /repo diff --quiet")[0] != 0:
         print("/repo dirty"); sys.exit(2)
-    for (key, wtid, k, demos, cmd, checks) in T2 + T3 + T4 + T5 + T6 + T7 + T8:
+    for (key, wtid, k, demos, cmd, checks) in T2 + T3 + T4 + T5 + T6 + T7 + T8 + T9:
         if only and key not in only:
             continue
         diff = "%s/%s-out/change%d.diff" % (SRC, wtid, k)
@@ -283,7 +290,7 @@ def redetect(only):
     d1 = json.load(open("/verif/notes/seeded_detect.json")); d2 = json.load(open("/verif/notes/seeded2_detect.json"))
     if sh("git -C /repo diff --quiet")[0] != 0:
         print("/repo dirty"); sys.exit(2)
-    items = [("%s_%d" % (pid, k), checks) for (pid, k, _d, _dest, _cmd, checks) in T] + [(key, checks) for (key, _w, _k, _dm, _cmd, checks) in T2 + T3 + T4 + T5 + T6 + T7 + T8]
+    items = [("%s_%d" % (pid, k), checks) for (pid, k, _d, _dest, _cmd, checks) in T] + [(key, checks) for (key, _w, _k, _dm, _cmd, checks) in T2 + T3 + T4 + T5 + T6 + T7 + T8 + T9]
     for key, checks in items:
         if (only and key not in only) or key in res:
             continue
